@@ -78,9 +78,9 @@ func bivarMomentStat(r, s int) biStat {
 			var prop float64
 			for i := range b.w {
 				ax, ay := math.Abs(b.mx.df[i]), math.Abs(b.my.df[i])
-				prop += b.w[i] * (math.Pow(ax+b.mx.delta, float64(r))*math.Pow(ay+b.my.delta, float64(s)) - math.Pow(ax, float64(r))*math.Pow(ay, float64(s)))
+				prop += (b.w[i] / W) * (math.Pow(ax+b.mx.delta, float64(r))*math.Pow(ay+b.my.delta, float64(s)) - math.Pow(ax, float64(r))*math.Pow(ay, float64(s)))
 			}
-			unit := b.nn()*u*float64(r+s+2)*sa/W + prop/W
+			unit := b.nn()*u*float64(r+s+2)*sa/W + prop
 			return []bf{bQuo(sum, b.mx.W)}, one(unit), true
 		},
 		aff: func(a, _, c, _ float64, out []float64) ([]float64, []float64) {
@@ -485,6 +485,11 @@ func (m *mon) runBi() {
 				if !ok {
 					c.Count("noverdict.ill-defined:"+S.name, 1)
 					continue
+				}
+				// gradual underflow of w*(deviation products), see runUni
+				uflow := bm.nn() * 1e-322 * math.Max(1, 1/bm.mx.Wf)
+				for k := range units {
+					units[k] += uflow
 				}
 				var out []float64
 				key := S.name + "|def|" + wk + "|" + class + "|" + sc
